@@ -1,4 +1,5 @@
 import OdakProofs.Lemmas.Slicing
+import OdakProofs.Lemmas.GenSlicers
 
 /-! # C16 – depth-plane slicing partitions the image exactly
   `multiplane_loss.set_targets` / `perceptual_multiplane_loss.set_targets` (masks by rounded depth)
@@ -131,5 +132,73 @@ example : (slicesContaining [(0 : ℝ), 1, 1, 2] 1).length = 1 ∧ (slicesContai
     simp only [List.pairwise_cons, List.mem_cons, List.not_mem_nil, or_false, forall_eq_or_imp,
       forall_eq, IsEmpty.forall_iff, implies_true, List.Pairwise.nil, and_true]
     norm_num
+
+end Odak
+
+/-! ## The same conclusions for the slicers REGENERATED from the Python source (`Generated/Slicers.lean`, tied to the model by
+  `Lemmas/GenSlicers.lean`), one pixel: `…M` = `multiplane_loss.set_targets`, `…P` = `perceptual_multiplane_loss.set_targets`,
+  `slice…T` = `slice_rgbd_targets`. -/
+namespace Odak
+open Odak.Gen
+
+/-- generated `set_targets` (both classes): the scaled and rounded depth of a pixel with depth in `[0, 1]` is a plane index -/
+theorem C16_gen_round_is_plane_index (n : Nat) (hn : 1 ≤ n) (d : ℝ) (h0 : 0 ≤ d) (h1 : d ≤ 1) (img : Nat → ℝ) :
+    ∃ i : Nat, i < n ∧ planeDepthM d n img = (i : ℝ) ∧ planeDepthP d n img = (i : ℝ) := by
+  obtain ⟨i, hi, e⟩ := C16_round_is_plane_index n hn d h0 h1
+  exact ⟨i, hi, by rw [planeDepthM_eq, e], by rw [planeDepthP_eq, e]⟩
+
+/-- generated `set_targets` (both classes): in every channel the plane masks of a pixel are 0/1-valued and exactly one plane has
+    mask 1 -/
+theorem C16_gen_masks_partition (n : Nat) (hn : 1 ≤ n) (d : ℝ) (h0 : 0 ≤ d) (h1 : d ≤ 1) (img : Nat → ℝ) (ch : Nat) :
+    ((∃! i : Nat, i < n ∧ planeMaskM d n img i ch = 1) ∧ (∀ i : Nat, i < n → planeMaskM d n img i ch = 0 ∨ planeMaskM d n img i ch = 1)) ∧
+    ((∃! i : Nat, i < n ∧ planeMaskP d n img i ch = 1) ∧ (∀ i : Nat, i < n → planeMaskP d n img i ch = 0 ∨ planeMaskP d n img i ch = 1)) := by
+  simp only [planeMaskM_eq, planeMaskP_eq]
+  exact ⟨C16_masks_partition n hn d h0 h1, C16_masks_partition n hn d h0 h1⟩
+
+/-- generated `set_targets` (both classes): target = image · mask, and the all-in-focus target accumulated over the planes is the
+    image, channel by channel -/
+theorem C16_gen_targets_sum_to_image (n : Nat) (hn : 1 ≤ n) (d : ℝ) (h0 : 0 ≤ d) (h1 : d ≤ 1) (img : Nat → ℝ) (ch : Nat) :
+    (∀ i, planeTargetM d n img i ch = img ch * planeMaskM d n img i ch) ∧ focusTargetM d n img ch = img ch ∧
+    (∀ i, planeTargetP d n img i ch = img ch * planeMaskP d n img i ch) ∧ focusTargetP d n img ch = img ch := by
+  simp only [planeTargetM_eq, planeTargetP_eq, planeMaskM_eq, planeMaskP_eq, focusTargetM_eq, focusTargetP_eq]
+  exact ⟨fun _ => rfl, C16_targets_sum_to_image n hn d h0 h1 _, fun _ => rfl, C16_targets_sum_to_image n hn d h0 h1 _⟩
+
+/-- generated `set_targets` (both classes): a single plane reproduces the image, whatever the depth value -/
+theorem C16_gen_single_plane (d : ℝ) (img : Nat → ℝ) (ch : Nat) :
+    planeTargetM d 1 img 0 ch = img ch ∧ planeTargetP d 1 img 0 ch = img ch := by
+  rw [planeTargetM_eq, planeTargetP_eq]
+  exact ⟨C16_single_plane d _, C16_single_plane d _⟩
+
+/-- generated `slice_rgbd_targets`: one slice per interval; for sorted plane positions spanning the depth value exactly one slice
+    has mask 1 at the pixel, every mask is 0 or 1, and target = image · mask (so the slices sum to the image) -/
+theorem C16_gen_slice_rgbd_partition (ps : List ℝ) (d : ℝ) (img : Nat → ℝ) (ch : Nat) (hlen : 2 ≤ ps.length)
+    (hsorted : ps.Pairwise (· ≤ ·))
+    (hlo : ps[0]'(by omega) ≤ d) (hhi : d ≤ ps[ps.length - 1]'(by omega)) :
+    (∃! t : Nat, t < sliceTargetTCount ps.length ∧ sliceMaskT img d (posFn ps) ps.length t ch = 1) ∧
+    (∀ t : Nat, t < sliceTargetTCount ps.length →
+      (sliceMaskT img d (posFn ps) ps.length t ch = 0 ∨ sliceMaskT img d (posFn ps) ps.length t ch = 1) ∧
+      sliceTargetT img d (posFn ps) ps.length t ch = img ch * sliceMaskT img d (posFn ps) ps.length t ch) := by
+  have hmask : ∀ t, t < sliceTargetTCount ps.length →
+      sliceMaskT img d (posFn ps) ps.length t ch = if inSlice ps (t + 1) d = true then 1 else 0 := by
+    intro t ht
+    rw [sliceTargetTCount_eq] at ht
+    exact sliceMaskT_eq ps img d t ch (by omega)
+  obtain ⟨⟨i, ⟨hi1, hi, hid⟩, huniq⟩, _⟩ := C16_slice_rgbd_partition ps d hlen hsorted hlo hhi
+  constructor
+  · refine ⟨i - 1, ⟨by rw [sliceTargetTCount_eq]; omega, ?_⟩, ?_⟩
+    · rw [hmask _ (by rw [sliceTargetTCount_eq]; omega), Nat.sub_add_cancel hi1, if_pos hid]
+    · rintro t ⟨ht, hm⟩
+      rw [hmask t ht] at hm
+      rw [sliceTargetTCount_eq] at ht
+      by_cases hin : inSlice ps (t + 1) d = true
+      · have := huniq (t + 1) ⟨by omega, by omega, hin⟩
+        omega
+      · rw [if_neg hin] at hm; exact absurd hm zero_ne_one
+  · intro t ht
+    refine ⟨?_, sliceTargetT_eq ps img d t ch⟩
+    rw [hmask t ht]
+    by_cases hin : inSlice ps (t + 1) d = true
+    · right; rw [if_pos hin]
+    · left; rw [if_neg hin]
 
 end Odak
